@@ -130,6 +130,10 @@ const DATATYPES: &[&str] = &[
     "http://www.w3.org/1999/02/22-rdf-syntax-ns#langString", "http://ex.org/é#\u{10000}", "x:d",
     "http://www.w3.org/2001/XMLSchema#strin", "http://www.w3.org/2001/XMLSchema#string2",
     "http://www.w3.org/2001/XMLSchema#String", "http://ex.org/XMLSchema#string", "x:string",
+    // same namespace, local name with `string` / `langString` as a proper suffix, or empty (seeded change C03-b)
+    "http://www.w3.org/2001/XMLSchema#substring", "http://www.w3.org/2001/XMLSchema#my-string",
+    "http://www.w3.org/2001/XMLSchema#",
+    "http://www.w3.org/1999/02/22-rdf-syntax-ns#xlangString",
 ];
 
 fn build_termgen(ctx: &mut GenCtx, outside: bool) -> TermGen {
